@@ -247,6 +247,25 @@ def script_func(n):
     return n * 2
 script_func(3)
 '''
+# a program that uses the IMPORTABLE decorator - through both import paths - under kernprof (any mode)
+KP_SCRIPT_EXPLICIT = '''
+import json
+import line_profiler
+from line_profiler import profile as top_profile
+from line_profiler.explicit_profiler import profile as sub_profile
+def via_top(n):
+    return n * 2
+def via_sub(n):
+    return n * 3
+T = top_profile(via_top)
+S = sub_profile(via_sub)
+T(3); S(3)
+kp = top_profile._profile
+print('OBS2 ' + json.dumps(dict(one_object=top_profile is sub_profile and line_profiler.profile is line_profiler.explicit_profiler.profile,
+                               taken_over=kp is not None and type(kp).__name__ in ('LineProfiler', 'ContextualProfile'),
+                               same_profiler=sub_profile._profile is top_profile._profile,
+                               wrapped=[T is not via_top, S is not via_sub])))
+'''
 
 
 def run_sub_kernprof(case, tmp):
@@ -258,21 +277,27 @@ def run_sub_kernprof(case, tmp):
         with open(os.path.join(d, 'setup_code.py'), 'w') as fh:
             fh.write(KP_SETUP % dict(cfg=json.dumps(dict(how=case['how'], prefix=case.get('prefix'), wc=case['wc']))))
         with open(os.path.join(d, 'script.py'), 'w') as fh:
-            fh.write(KP_SCRIPT)
+            fh.write(KP_SCRIPT_EXPLICIT if case.get('explicit') else KP_SCRIPT)
         env = dict(os.environ)
         env.pop('LINE_PROFILE', None)
         if case['env'] is not None:
             env['LINE_PROFILE'] = case['env']
-        p = subprocess.run([sys.executable, '-m', 'kernprof', '-l', '-s', 'setup_code.py', 'script.py'] + case['args'], cwd=d, env=env,
+        mode = case.get('mode', ['-l'])
+        setup = ['-s', 'setup_code.py'] if case['how'] else []
+        p = subprocess.run([sys.executable, '-m', 'kernprof'] + mode + setup + ['script.py'] + case['args'], cwd=d, env=env,
                            stdout=subprocess.PIPE, stderr=subprocess.PIPE, text=True, timeout=120)
-        obs = None
+        obs, obs2 = ({} if not case['how'] else None), None
         for line in p.stdout.splitlines():
             if line.startswith('OBS '):
                 obs = json.loads(line[4:])
-        names = [n for n in list_files(d) if n not in ('setup_code.py', 'script.py', 'script.py.lprof') and not n.startswith('__pycache__')]
+            if line.startswith('OBS2 '):
+                obs2 = json.loads(line[5:])
+        names = [n for n in list_files(d) if n not in ('setup_code.py', 'script.py', 'script.py.lprof', 'script.py.prof')
+                 and not n.startswith('__pycache__')]
         prefix = case['prefix'] if case['how'] == 'enable' else 'profile_output'
         seen, ts = classify_outputs(prefix, names, p.stdout)
-        return dict(rc=p.returncode, obs=obs, seen=seen, ts=ts, prefix=prefix, kernprof_out=os.path.exists(os.path.join(d, 'script.py.lprof')),
+        return dict(rc=p.returncode, obs=obs, obs2=obs2, seen=seen, ts=ts, prefix=prefix,
+                    kernprof_out=os.path.exists(os.path.join(d, 'script.py.lprof' if '-l' in mode else 'script.py.prof')),
                     traceback=('Traceback' in p.stderr or 'Exception ignored' in p.stderr), stderr=p.stderr[-400:])
     finally:
         shutil.rmtree(d, ignore_errors=True)
@@ -289,6 +314,14 @@ for k, (op, arg) in enumerate(CFG['ops']):
         profile.enable() if arg is None else profile.enable(output_prefix=arg)
     elif op == 'disable':
         profile.disable()
+    elif op == 'decorate_sub':
+        # the same decorator, imported through the sub-module path
+        from line_profiler.explicit_profiler import profile as sub_profile
+        def fs(x, k=k):
+            return x - k
+        FS = sub_profile(fs)
+        FS(1)
+        sames.append(FS is fs)
     elif op == 'decorate_ghost':
         # a function whose source file does not exist (code built with exec), decorated and NEVER called
         ns = {}
